@@ -51,6 +51,9 @@ type Report struct {
 	Assumptions []string
 	Extra       map[string]any
 	floorFail   []string
+	// SelfTest collects failures of the checker's own sensitivity test
+	// (thorough tier): the checker is broken, not the property (exit 2).
+	SelfTest []string
 }
 
 func NewReport(prop, tier string) *Report {
@@ -298,6 +301,12 @@ func (r *Report) Finish(verifDir string) int {
 	}
 	if len(violLines) > 0 {
 		return 1
+	}
+	if len(r.SelfTest) > 0 {
+		for _, s := range r.SelfTest {
+			fmt.Println("SELFTEST-FAILED", s)
+		}
+		return 2
 	}
 	return 0
 }
